@@ -227,6 +227,14 @@ func isErrorWriter(w io.WriteCloser) bool {
 	return ok
 }
 
+// isStringsBuilder: the writer buffers what it is given in memory.
+//
+//@ pure
+func isStringsBuilder(w io.Writer) bool {
+	_, ok := w.(*strings.Builder)
+	return ok
+}
+
 // IsLiteralCancelled: the error is the marker an encoder carries after the peer
 // refused a synchronising literal (as opposed to a failed write).
 //
@@ -303,6 +311,8 @@ func FlagGrammar(s string) bool {
 //
 //@ func (dec *Decoder) Literal(ptr *string) (result bool)
 //@   modifies ptr
+//@   props C06:callsite
+//@   callsite io.Copy(dst io.Writer, src io.Reader) requires dec.CheckBufferedLiteralFunc == nil || __called("CheckBufferedLiteralFunc")
 //@   ensures[C04] __called("CheckBufferedLiteralFunc") && __failed("CheckBufferedLiteralFunc") ==> !result && dec.err != nil
 //@   ensures[C04] __called("CheckBufferedLiteralFunc") && __failed("CheckBufferedLiteralFunc") && __resultBool("Decoder.LiteralReader", 1) ==> __called("Copy")
 
